@@ -65,8 +65,19 @@ class Profile:
         return Profile(name, self.x0s, self.gaps, self.ys, self.must_contain, sx, sy, yflip, xshift)
 
 
+INT_MODE = False     # set per unit by the runner: integral curves are then presented as int64 arrays
+
+
+def set_int_mode(flag):
+    global INT_MODE
+    INT_MODE = bool(flag)
+
+
 def points(xs, ys, dtype=float):
-    return np.array([xs, ys], dtype=dtype).T.copy()
+    a = np.array([xs, ys], dtype=dtype).T.copy()
+    if INT_MODE and dtype is float and a.size and bool(np.all(a == np.round(a))) and bool(np.all(np.abs(a) < 2 ** 40)):
+        return a.astype(np.int64)
+    return a
 
 
 A = Profile('A', (0, 1), (1, 2, 3), (0, 1, 2, 3))
@@ -132,6 +143,43 @@ def tiny_family(base):
     """Exact power-of-two re-embeddings used to expose absolute tolerances (np.isclose / allclose / fixed
     eps) that are wrong for curves expressed in tiny or huge units."""
     return [scaled(base, sx, sy) for sx, sy in TINY]
+
+
+class TraceProfile:
+    """Every contiguous window of length n of a bundled trace (optionally strided), with the same interface
+    as Profile: real-data (non-dyadic) values and longer curves, still a completely enumerated finite family."""
+
+    def __init__(self, name, fname, stride=1, maxpoints=None):
+        self.name, self.fname, self.stride, self.maxpoints = name, fname, stride, maxpoints
+        self._pts = None
+
+    def pts(self):
+        if self._pts is None:
+            import os
+            from mc import core
+            p = np.genfromtxt(os.path.join(core.REPO, 'traces', self.fname), delimiter=',')
+            p = p[::self.stride]
+            if self.maxpoints:
+                p = p[:self.maxpoints]
+            self._pts = p
+        return self._pts
+
+    def size(self, n):
+        return max(0, len(self.pts()) - n + 1)
+
+    def coords(self, n, i):
+        w = self.pts()[i:i + n]
+        return [float(v) for v in w[:, 0]], [float(v) for v in w[:, 1]]
+
+    def shard(self, n, k, K):
+        for i in range(k, self.size(n), K):
+            xs, ys = self.coords(n, i)
+            yield i, xs, ys
+
+
+TWEB = register(TraceProfile('Tweb0r', 'web0_reduced.csv'))
+TUSR = register(TraceProfile('Tusr0s64', 'usr0.csv', 64))
+TUSR8 = register(TraceProfile('Tusr0s8', 'usr0.csv', 8, 400))
 
 
 def subsets_with_ends(n):
